@@ -293,12 +293,12 @@ fn template_line(name: &str, t: &TemplateData, with_io: bool) -> String {
     let mut o = format!("(T {}", name);
     if with_io {
         o.push_str(" (in");
-        for (n, _) in t.get_declaration_inputs() {
-            write!(o, " {}", n).unwrap();
+        for (n, d) in t.get_declaration_inputs() {
+            write!(o, " {}:{}", n, d).unwrap();
         }
         o.push_str(") (out");
-        for (n, _) in t.get_declaration_outputs() {
-            write!(o, " {}", n).unwrap();
+        for (n, d) in t.get_declaration_outputs() {
+            write!(o, " {}:{}", n, d).unwrap();
         }
         o.push(')');
     }
